@@ -3,6 +3,7 @@ package c06
 import (
 	"bytes"
 	"fmt"
+	"net/http"
 	"strings"
 	"sync"
 	"testing"
@@ -81,6 +82,16 @@ type hres struct {
 	ambiguous                    int
 }
 
+// sameInstant: the revalidation names the stored Last-Modified instant (the proxy may respell the date).
+func sameInstant(got, stored string) bool {
+	if got == stored {
+		return true
+	}
+	a, err1 := http.ParseTime(got)
+	b, err2 := http.ParseTime(stored)
+	return err1 == nil && err2 == nil && a.Equal(b)
+}
+
 func runHistory(env *px.Env, org *origin.Origin, site *origin.Site, c Case, idx int, ops []Op) (res hres) {
 	path, id := fmt.Sprintf("/r%d", idx), fmt.Sprintf("r%d", idx)
 	L := time.Duration(c.LMs) * time.Millisecond
@@ -96,6 +107,11 @@ func runHistory(env *px.Env, org *origin.Origin, site *origin.Site, c Case, idx 
 			v.ETag = fmt.Sprintf(`W/"%s-%d"`, id, ver)
 		case "lm":
 			v.LastMod = time.Date(2020, 1, 1, 0, 0, ver, 0, time.UTC).Format("Mon, 02 Jan 2006 15:04:05 GMT")
+		case "lm850":
+			// the two obsolete date forms every HTTP recipient must read (RFC 9110 5.6.7): the same instant, written differently
+			v.LastMod = time.Date(2020, 1, 1, 0, 0, ver, 0, time.UTC).Format("Monday, 02-Jan-06 15:04:05 GMT")
+		case "lmasc":
+			v.LastMod = time.Date(2020, 1, 1, 0, 0, ver, 0, time.UTC).Format(time.ANSIC)
 		case "sticky":
 			// the tag does not change with the content (a coarse strong tag): only an origin that answers the
 			// revalidation with a 200 tells the proxy that the body is new
@@ -213,7 +229,7 @@ func runHistory(env *px.Env, org *origin.Origin, site *origin.Site, c Case, idx 
 					res.fail = ev.Failf("reval.invented-if-none-match", "%s: stored response had no ETag, revalidation carried If-None-Match %q", rid, inm)
 					return
 				}
-				if st.v.LastMod != "" && (len(ims) != 1 || ims[0] != st.v.LastMod) {
+				if st.v.LastMod != "" && (len(ims) != 1 || !sameInstant(ims[0], st.v.LastMod)) {
 					res.fail = ev.Failf("reval.wrong-if-modified-since", "%s: stored Last-Modified %s, revalidation carried If-Modified-Since %q", rid, st.v.LastMod, ims)
 					return
 				}
@@ -311,7 +327,7 @@ func keys(m map[int]bool) []int {
 }
 
 var sub = ev.Register("revalidation-histories",
-	"6-10 concurrent per-resource histories of get(with client conditionals: If-None-Match, If-Modified-Since, If-Match, If-Unmodified-Since, well-formed / malformed / repeated, all carrying marker values) / expire(sleep 1.5 L) / origin bump with validator scheme in {ETag, weak ETag, Last-Modified, both, none, a strong or weak tag that stays the same while the content changes (with or without a changing Last-Modified)} / origin mode in {standard, always 200, 500 or 403 on conditionals, 500/404 always}; model = stored version + its validators; oracle on the origin log: revalidations carry exactly the stored validators, no client marker ever reaches the origin; on the client: 304 keeps the stored body (REVALIDATED) and the next request within the default lifetime is a HIT, 200 replaces it and the old body is never served again, any other status is relayed and the next request asks the origin again; non-trivial = history with >= 2 expiries including a 304 and a 200 replacement; distinct by history",
+	"6-10 concurrent per-resource histories of get(with client conditionals: If-None-Match, If-Modified-Since, If-Match, If-Unmodified-Since, well-formed / malformed / repeated, all carrying marker values) / expire(sleep 1.5 L) / origin bump with validator scheme in {ETag, weak ETag, Last-Modified (IMF-fixdate, RFC 850 or asctime form), both, none, a strong or weak tag that stays the same while the content changes (with or without a changing Last-Modified)} / origin mode in {standard, always 200, 500 or 403 on conditionals, 500/404 always}; model = stored version + its validators; oracle on the origin log: revalidations carry exactly the stored validators, no client marker ever reaches the origin; on the client: 304 keeps the stored body (REVALIDATED) and the next request within the default lifetime is a HIT, 200 replaces it and the old body is never served again, any other status is relayed and the next request asks the origin again; non-trivial = history with >= 2 expiries including a 304 and a 200 replacement; distinct by history",
 	func(c Case, o *ev.Obs) *ev.Failure {
 		site := origin.NewSite()
 		org := origin.New(site.Handler())
@@ -382,11 +398,11 @@ func drawCase(t *rapid.T) Case {
 			case 0, 1, 2:
 				ops = append(ops, Op{Kind: "expire"})
 			case 3, 4:
-				ops = append(ops, Op{Kind: "bump", Scheme: rapid.SampledFrom([]string{"etag", "weak", "lm", "both", "none"}).Draw(t, "scheme")}, Op{Kind: "expire"})
+				ops = append(ops, Op{Kind: "bump", Scheme: rapid.SampledFrom([]string{"etag", "weak", "lm", "both", "none", "lm850", "lmasc"}).Draw(t, "scheme")}, Op{Kind: "expire"})
 			case 5:
 				ops = append(ops, Op{Kind: "mode", Mode: rapid.SampledFrom([]string{"standard", "standard", "always200", "cond500", "cond403", "all500", "all404"}).Draw(t, "mode")})
 			case 6:
-				ops = append(ops, Op{Kind: "bump", Scheme: rapid.SampledFrom([]string{"etag", "weak", "lm", "both", "none"}).Draw(t, "scheme")})
+				ops = append(ops, Op{Kind: "bump", Scheme: rapid.SampledFrom([]string{"etag", "weak", "lm", "both", "none", "lm850", "lmasc"}).Draw(t, "scheme")})
 			case 7:
 				// content changes under an unchanged tag, at an origin that ignores conditionals: store, expire, change, ask
 				sk := rapid.SampledFrom([]string{"sticky", "sticky-weak", "sticky+lm"}).Draw(t, "sticky")
